@@ -115,6 +115,20 @@ CHECKS["C05"] = dict(
     ref="5/C05 and 12",
 )
 
+CHECKS["C14"] = dict(
+    technique="TLA+ specification of the segment-pen and point-pen protocols, their geometric meaning, the normal forms that name what an adapter may change and the exact area / bounds laws (PenProto.tla) model-checked; every TLC-enumerated call sequence replayed through every real adapter and the recorded output calls judged by TLC against the adapter's contract",
+    text="TLC enumerates all valid pen call sequences over a point lattice (open / closed contours, lines, quadratic runs with any number of off-curve points, cubics, super-beziers, contours without on-curve point, duplicate and coincident points, single-point contours, components) and checks the laws of the specification itself (Geom of implied points, reversal involution, area negation, free start of all-off-curve contours); each outline, further simulated outlines and every corpus glyph's pen stream go through RecordingPen replay, SegmentToPointPen / PointToSegmentPen (both orders), TransformPen / TransformPointPen, ReverseContourPen / ReverseContourPointPen, RoundingPen / RoundingPointPen, FilterPen, TTGlyphPen / TTGlyphPointPen -> Glyph -> draw (with dropImpliedOnCurves), T2CharStringPen -> charstring -> draw, SVGPathPen -> path -> parse_path (plus relative-command paths), BoundsPen / ControlBoundsPen / AreaPen; TLC requires Canon(Geom(out)) = Contract(Canon(Geom(in))), reverse twice = identity, exact area negation (integer polynomial arithmetic) and mutual consistency of bounds, control bounds and area.",
+    note="Trusted: TLC, the recording pens as observers, integer arithmetic at doubled / scaled coordinates. Glyph builders may drop single-point contours (licensed by the property). TrueType cubic glyphs and SVG S/T/A commands are not driven.",
+    ref="5/C14 and 12",
+)
+
+CHECKS["C10"] = dict(
+    technique="TLA+ specification of building a variable font from a designspace (Build.tla over Model / VarSem / AxisMap: Normalise, MakeModel, MakeItems, Assemble) model-checked; TLC-exported designspaces realised as real TrueType and CFF masters and built by the real varLib.build, corpus designspaces with TTX masters built likewise; the projected built font evaluated by TLC at every master location against the projected master",
+    text="TLC checks MasterReproduced (every supplied item within 1/2 at its master's normalised location, exactly before rounding), AxisMapping (fvar + avar normalisation equals the designspace's axis map at every knot, midpoint and outside the range), SparseOK and the agreement with Model.tla / AxisMap.tla on exhaustive 1-, 2- and 3-axis families with intermediate, corner and sparse masters; 310 exported designspaces per quick run are realised as master fonts in both flavours (outlines with off-curve points, a composite, a rigidly moving glyph, advances, glyph and class kerning, mark anchors, OS/2 / hhea / post metrics, sparse masters as subset and as empty glyphs) and built with the real varLib.build, as are the 31 corpus designspaces with TTX masters (with and without gvar optimisation); the built font is saved, reloaded and projected (fvar, avar, gvar or CFF2 blends, HVAR, MVAR, GPOS variation indices with the GDEF store) to exact integers and rationals and TLC evaluates every item at every master location; HarfBuzz advances and outlines of the built font at each master's user location are compared with the static master under the same inequality.",
+    note="Trusted: TLC, the projections, F2Dot14 slack derived in the specification (zero on lattice designspaces), HarfBuzz as observer. Designspaces with avar 2, discrete axes, UFO-only or UFO-layer masters are skipped and counted; a single-CFF-master designspace (varLib.build raises IndexError) is counted as a skip because one master has nothing to reproduce.",
+    ref="5/C10 and 12",
+)
+
 NOT_YET = "check not built yet in this round (see DESIGN.md section 10 for the build order)"
 
 
